@@ -524,6 +524,17 @@ def _bit_of(body):
   return None
 
 
+def analyse_next_time_launch(tree):
+  """forward._advance launches _next_time_builder(...) unconditionally (the probes run on every step)."""
+  adv = next((s for s in tree.body if isinstance(s, ast.FunctionDef) and s.name == "_advance"), None)
+  if adv is None:
+    raise ExtractError("forward.py: _advance not found")
+  ls = [n for n in ast.walk(adv) if _is_call(n, "launch") and n.args and _is_call(n.args[0], "_next_time_builder")]
+  if len(ls) != 1:
+    raise ExtractError(f"forward._advance: _next_time launched {len(ls)} times")
+  return guard_path(adv, ls[0])
+
+
 def analyse_next_time(tree):
   fac = next((s for s in tree.body if isinstance(s, ast.FunctionDef) and s.name == "_next_time_builder"), None)
   if fac is None:
@@ -577,6 +588,27 @@ def analyse_next_time(tree):
   return probes
 
 
+def guard_path(fn, target):
+  """Tests of the `if` statements enclosing `target` inside function `fn` (else branches as `not (...)`)."""
+  def rec(body, path):
+    for st in body:
+      if st is target or any(n is target for n in ast.walk(st)) and not isinstance(st, (ast.If, ast.For, ast.While, ast.With)):
+        return path
+      if isinstance(st, ast.If):
+        if any(n is target for b in st.body for n in ast.walk(b)):
+          return rec(st.body, path + [src(st.test)])
+        if any(n is target for b in st.orelse for n in ast.walk(b)):
+          return rec(st.orelse, path + [f"not ({src(st.test)})"])
+      elif isinstance(st, (ast.For, ast.While, ast.With)):
+        if any(n is target for b in st.body for n in ast.walk(b)):
+          return rec(st.body, path + [f"<{type(st).__name__.lower()}>"])
+    return None
+  r = rec(fn.body, [])
+  if r is None:
+    raise ExtractError(f"{fn.name}: cannot locate statement at line {getattr(target, 'lineno', '?')}")
+  return r
+
+
 def analyse_nnz_fix(tree):
   """Repairs of the njmax_nnz class inside constraint.py (all absent in the original code):
   prezero  `d.efc.J_rownnz.zero_()` + `d.efc.J_rowadr.zero_()` in make_constraint before the builders;
@@ -587,12 +619,14 @@ def analyse_nnz_fix(tree):
     raise ExtractError("constraint.py: make_constraint not found")
   launches = [n for n in ast.walk(mc) if _is_call(n, "launch") or _is_call(n, "launch_tiled")]
   first_builder = min((n.lineno for n in launches if n.args and isinstance(n.args[0], ast.Call)), default=None)
-  zeroed = {}
+  zeroed, znodes = {}, []
   for n in ast.walk(mc):
     if _is_call(n, "zero_") and isinstance(n.func, ast.Attribute):
       t = src(n.func.value)
       if t in ("d.efc.J_rownnz", "d.efc.J_rowadr"):
         zeroed[t] = n.lineno
+        znodes.append(n)
+  zguards = [guard_path(mc, n) for n in znodes]
   if len(zeroed) == 1:
     raise ExtractError(f"make_constraint: only {list(zeroed)} is zeroed")
   prezero = len(zeroed) == 2
@@ -608,7 +642,7 @@ def analyse_nnz_fix(tree):
       if isinstance(st, ast.Assign) and "NJMAX_NNZ" in src(st.value) and "overflow" in src(st.targets[0]):
         flaggers.append((name, fn))
   if not flaggers:
-    return {"flag": False, "prezero": prezero, "clamp": False}
+    return {"flag": False, "prezero": prezero, "clamp": False, "guards": {"zero": zguards, "launch": None}, "sparse_only": all(g == ["m.is_sparse"] for g in zguards)}
   if len(flaggers) != 1:
     raise ExtractError(f"constraint.py: several kernels set NJMAX_NNZ: {[n for n, _ in flaggers]}")
   name, fn = flaggers[0]
@@ -660,7 +694,9 @@ def analyse_nnz_fix(tree):
   for k, v in expect.items():
     if actual.get(k) != v:
       raise ExtractError(f"make_constraint: {name} argument {k} = {actual.get(k)}, expected {v}")
-  return {"flag": True, "prezero": prezero, "clamp": clamp}
+  lguard = guard_path(mc, mine[0])
+  sparse_only = lguard == ["m.is_sparse"] and all(g == ["m.is_sparse"] for g in zguards)
+  return {"flag": True, "prezero": prezero, "clamp": clamp, "guards": {"zero": zguards, "launch": lguard}, "sparse_only": sparse_only}
 
 
 def analyse_pair_emitters(tree):
@@ -758,8 +794,10 @@ def extract():
     raise ExtractError("island.py: _compact_dofs not found")
   b, p = analyse_serial("_compact_dofs", cdf, "nvmax", "NVMAX")
   builders.append(b)
-  probes = analyse_next_time(_parse("forward.py")) + [p]
-  return builders, probes, {"collision_zero_cap_skip": zskip, "nnz_fix": analyse_nnz_fix(ct), "pair_emitters": analyse_pair_emitters(cd)}
+  fwd = _parse("forward.py")
+  probes = analyse_next_time(fwd) + [p]
+  ntg = analyse_next_time_launch(fwd)
+  return builders, probes, {"next_time_guards": ntg, "collision_zero_cap_skip": zskip, "nnz_fix": analyse_nnz_fix(ct), "pair_emitters": analyse_pair_emitters(cd)}
 
 
 def _coq_bool(b):
@@ -814,6 +852,12 @@ def to_coq(builders, probes, host):
   lines.append("")
   lines.append("(* repairs of the njmax_nnz class found in make_constraint: direct flag / metadata zeroed first / clamp *)")
   lines.append(f"Definition nnz_fix : nnzfix := mkFix {_coq_bool(fx['flag'])} {_coq_bool(fx['prezero'])} {_coq_bool(fx['clamp'])}.")
+  lines.append(f"(* condition paths in make_constraint: zeroing {fx['guards']['zero']}, flag/clamp launch {fx['guards']['launch']};")
+  lines.append(f"   forward._advance launches _next_time under {host['next_time_guards']} *)")
+  lines.append("(* the repairs run whenever the Jacobian is sparse: guarded by `m.is_sparse` and nothing else *)")
+  lines.append(f"Definition nnz_fix_sparse_only : bool := {_coq_bool(fx['sparse_only'])}.")
+  lines.append("(* the probes of _next_time run on every step *)")
+  lines.append(f"Definition next_time_unconditional : bool := {_coq_bool(host['next_time_guards'] == [])}.")
   lines.append("")
   return "\n".join(lines)
 
